@@ -27,6 +27,8 @@ import (
 
 	api "k8s.io/api/core/v1"
 
+	hatypes "github.com/jcmoraisjr/haproxy-ingress/pkg/haproxy/types"
+
 	"verif/harness/lib/c07"
 	"verif/harness/lib/cfgnorm"
 	"verif/harness/lib/fakehaproxy"
@@ -46,6 +48,7 @@ type state struct {
 	applyErr error
 	scanErr  error
 	tmpl     string // the observed model state as a Coq term (Model/TmplRefs.v tstate)
+	stale    bool   // hosts were modified in place after the frontend maps were last built
 	cmds     int    // socket mode: commands the controller sent to haproxy
 	reloaded bool   // socket mode: a reload was asked for
 }
@@ -82,6 +85,8 @@ func run(o c07.Opt, h [][]pipeline.Change, upto int) ([]state, error) {
 	}
 	defer p.Close()
 	var out []state
+	var lastMaps *hatypes.FrontendMaps
+	hostsSnap := ""
 	for i, b := range h {
 		if upto >= 0 && i > upto {
 			break
@@ -94,7 +99,14 @@ func run(o c07.Opt, h [][]pipeline.Change, upto int) ([]state, error) {
 		st.applyErr = p.Apply(b)
 		st.cfg, st.scanErr = c07.Scan(p.Dir(), p.Prefix())
 		if wantTmpl {
-			st.tmpl = c07.TmplState(p.Config())
+			// the hosts the frontend maps were last built from: the real code modifies hosts in
+			// place without rebuilding them (known finding C01/ingress-default-backend-not-pretracked)
+			cur := c07.TmplHosts(p.Config())
+			if m := p.Config().Frontend().Maps; m != lastMaps || m == nil {
+				lastMaps, hostsSnap = m, cur
+			}
+			st.stale = cur != hostsSnap
+			st.tmpl = c07.TmplState(p.Config(), hostsSnap, p.Prefix())
 		}
 		if st.scanErr == nil {
 			st.findings = c07.Check(st.cfg)
@@ -383,7 +395,7 @@ func main() {
 		nDed := o.Count(200, 6000)
 		nWorld := o.Count(60, 2000)
 		if o.Search {
-			nDed, nWorld = o.Count(1500, 12000), o.Count(300, 3000)
+			nDed, nWorld = o.Count(800, 12000), o.Count(150, 3000)
 		}
 		for i := 0; i < nDed; i++ {
 			op, h := c07.GenHistory(rng, 1+rng.Intn(4))
@@ -400,7 +412,7 @@ func main() {
 		}
 		nSplit := o.Count(40, 1500)
 		if o.Search {
-			nSplit = o.Count(400, 3000)
+			nSplit = o.Count(300, 3000)
 		}
 		for i := 0; i < nSplit; i++ {
 			op, h := c07.GenSplitTLS(rng)
@@ -408,7 +420,7 @@ func main() {
 		}
 		nChurn := o.Count(120, 4000)
 		if o.Search {
-			nChurn = o.Count(1000, 8000)
+			nChurn = o.Count(300, 8000)
 		}
 		for i := 0; i < nChurn; i++ {
 			op, h := c07.GenChurn(rng, 3+rng.Intn(6))
@@ -476,7 +488,10 @@ func main() {
 			}
 			if !o.Search {
 				coqStates = append(coqStates, hx.Tuple(st.cfg.Coq(), hx.Bool(len(st.findings) == 0)))
-				tmplStates = append(tmplStates, c07.TmplCase(st.tmpl, st.cfg, len(st.findings) == 0))
+				tmplStates = append(tmplStates, c07.TmplCase(st.tmpl, st.cfg, len(st.findings) == 0 && !st.stale))
+				if st.stale {
+					res.Count("tmpl_state_hosts_modified_in_place_after_map_build")
+				}
 			}
 			// findings: shrink the first history showing each cause
 			seenHere := map[string]bool{}
